@@ -76,11 +76,33 @@ func execFlDec(st *State, args []string) string {
 	return "ok " + f.toVal().String()
 }
 
+// The decode is run twice: into a fresh destination and into a recycled one (every byte / root
+// slice of the destination's top level and container fields holds 3 stale items and has spare
+// capacity for 4096); the observation must not depend on it (the second is appended if it does).
 func execFlRaw(st *State, args []string) string {
+	a := flRaw(args, false)
+	b := func() (res string) {
+		defer func() {
+			if r := recover(); r != nil {
+				res = "panic"
+			}
+		}()
+		return flRaw(args, true)
+	}()
+	if a != b {
+		return a + " recycled:" + b
+	}
+	return a
+}
+
+func flRaw(args []string, recycled bool) string {
 	p := &parser{toks: args}
 	t := p.ty()
 	bs := unhex(p.next())
 	f := newFlat(t)
+	if recycled {
+		flatPresize(f, 3, 4096)
+	}
 	if err := flatDecodeInto(f, bs); err != nil {
 		return "err"
 	}
